@@ -282,7 +282,14 @@ func (s *session) setVersion(r *sessionRecord, v *version) {
 				added   = make([]int64, 0, len(r.addedTables))
 				deleted = make([]int64, 0, len(r.deletedTables))
 			)
+			seen := make(map[int64]struct{}, len(r.addedTables))
 			for _, t := range r.addedTables {
+				// A record that went through newManifest lists the tables it
+				// adds twice, reference each file only once.
+				if _, ok := seen[t.num]; ok {
+					continue
+				}
+				seen[t.num] = struct{}{}
 				added = append(added, t.num)
 			}
 			for _, t := range r.deletedTables {
